@@ -132,9 +132,10 @@ func rejectWhy(grammar, s string) string {
 func C09(run *ev.Run, tier string) map[string]interface{} {
 	thorough := tier == "thorough"
 	st := &c09stats{}
-	// the second evaluation on a long-lived interpreter (itp) is limited to strings of at most three
-	// blank-separated tokens and to the strings of the directed families (those are not blank-joined)
-	itp.WarmFilter = func(expr string) bool { return strings.Count(expr, " ") <= 2 || len(expr) > 64 }
+	// the second evaluation on a long-lived interpreter (itp) is limited to strings of at most five bytes
+	// (every string is presented several times in this process anyway,
+	// once per binding of :v, which is what a package-level cache would need)
+	itp.WarmFilter = func(expr string) bool { return len(expr) <= 5 }
 	type job struct{ grammar, s, why string }
 	ch := make(chan job, 4096)
 	var wg sync.WaitGroup
